@@ -9,11 +9,12 @@ is then compared is what the pool published.
 namespace PoolAdapter
 open Pool
 
-def eventsOf (kind : String) (added : Nat) : List Ev :=
-  List.replicate added .result ++ (if kind == "cancelled" then [.cancel] else if kind == "error" then [.error] else [])
+/-- the events of a batch: its results are told apart by their arrival number only (the statistics over them are `Agg`'s business) -/
+def eventsOf (kind : String) (added : Nat) : List (Ev Nat) :=
+  (List.range added).map .result ++ (if kind == "cancelled" then [.cancel] else if kind == "error" then [.error] else [])
 
-def outRec (kind : String) (s : St) : Rec :=
-  let p : Int := match s.published with | some k => k | none => -1
+def outRec (kind : String) (s : St Nat) : Rec :=
+  let p : Int := match s.published with | some l => l.length | none => -1
   (Rec.mk' "pool").addS "kind" kind |>.addI "added" s.count |>.addI "iters" p |>.addI "dpc" p |>.addB "cycles" true
 
 def stepO (_ : Unit) (op : Rec) (obs : List Rec) : Unit × List Rec × List String :=
